@@ -114,6 +114,7 @@ func (v *validation) contentType() {
 				v.result = append(v.result, errors.New(http.StatusInternalServerError, "no consumer registered for %s", ct))
 			} else {
 				v.route.Consumer = cons
+				verifStage("consumer", v.request, ct, v.route)
 			}
 		}
 	}
